@@ -44,6 +44,7 @@ type SoloAction struct {
 	Path  string   `json:"path,omitempty"`
 	Data  string   `json:"data,omitempty"`
 	Plen  int      `json:"plen,omitempty"`
+	Ph    uint64   `json:"ph,omitempty"` // claimed proof height of VM / VNM: 0 = zero height, n = revision height n
 	Seq   uint64   `json:"seq,omitempty"`
 	Pform string   `json:"pform,omitempty"`
 	Sig1  *SigTerm `json:"sig1,omitempty"`
@@ -288,7 +289,8 @@ func (w *SoloWorld) Exec(a SoloAction) (string, string) {
 		path := merklePathOf(a.Path, a.Plen)
 		ck := w.chain.App.GetIBCKeeper().ClientKeeper
 		return w.direct(func(ctx sdk.Context) error {
-			h := ck.GetClientLatestHeight(ctx, w.clientID)
+			// the claimed proof height is part of the schedule (the caller's claim, not the client's latest height)
+			h := clienttypes.NewHeight(0, a.Ph)
 			if a.A == "VM" {
 				val := w.dataBytes(a.Data)
 				if val == nil {
